@@ -40,7 +40,8 @@ theorem pad_noop (i : Inst) {as : List Nat} {s : State} (h : Run env i (env.rese
     have hl2 : (as ++ [0]).length ≠ 1 := by
       have : (as ++ [0]).length = as.length + 1 := by simp
       omega
-    simp only [reward, hl1, hl2, if_false]
+    rw [reward_eq, reward_eq]
+    simp only [hl1, hl2, if_false]
     rw [gatherSum_append, gatherSum_zero]
     omega
 
